@@ -58,6 +58,7 @@ func runC12With(t *testing.T, c simrt.Chooser, o Opts, forcedStep int, block int
 	estSteps := 400
 	var estDur time.Duration
 	isApp := p.pct("app", 30)
+	forceTime := false
 	var ps *pktScenario
 	if isApp {
 		s := genScan(p, genKnobs{maxProbes: 60, cmds: appCmds[:1], allowExcl: true, remotePct: 50})
@@ -95,12 +96,31 @@ func runC12With(t *testing.T, c simrt.Chooser, o Opts, forcedStep int, block int
 			sp.mix = []int{sbProxy}
 			sp.latMax, sp.connMax = 50*time.Microsecond, 50*time.Microsecond
 		}
+		stalledStream := false
+		if !flood && p.pct("stalledstream", 12) {
+			// the request stream stalls: the target list comes from a pipe whose writer pauses for an
+			// hour part-way; workers sit idle on an open but empty request channel when Ctrl-C comes
+			if data, ok := w.Files[targetsFn]; ok && len(data) > 2 {
+				w.FileFault = map[string]FileFault{targetsFn: {ErrAt: -1, StallAt: 1 + p.n("stallat", len(data)-1), StallFor: "1h"}}
+				stalledStream = true
+			} else if w.Stdin != nil && len(*w.Stdin) > 2 && s.FromStdin {
+				w.FileFault = map[string]FileFault{"-": {ErrAt: -1, StallAt: 1 + p.n("stallat", len(*w.Stdin)-1), StallFor: "1h"}}
+				stalledStream = true
+			}
+			if stalledStream {
+				simrtFault(out, "request-stream-stall")
+			}
+		}
 		w.tcp = sp.install
 		sc.App = &c16AppScenario{Spec: s, World: w}
 		estSteps = 60*s.nprobes() + 300
 		estDur += 7 * time.Second
 		if flood {
 			estDur = 800 * time.Millisecond
+		}
+		if stalledStream {
+			estDur = 20 * time.Second // well inside the hour-long stall, after the probes of the first part are over
+			forceTime = true
 		}
 	} else {
 		k := pktKnobs{
@@ -146,7 +166,7 @@ func runC12With(t *testing.T, c simrt.Chooser, o Opts, forcedStep int, block int
 	switch {
 	case forcedStep > 0:
 		w.SigintStep = forcedStep
-	case p.pct("attime", 35) || (sc.App != nil && outStall > 0):
+	case p.pct("attime", 35) || (sc.App != nil && outStall > 0) || forceTime:
 		w.SigintAt = p.dur("sigat", 1, estDur+time.Millisecond).String()
 	default:
 		w.SigintStep = 1 + p.n("sigstep", estSteps)
